@@ -29,3 +29,6 @@ import LexVerif.Model.Ops.WriteAlgos
 -- string→float algorithm models (fast path, Eisel–Lemire, Bellerophon, power-of-two) and their op handlers
 import LexVerif.Model.Ops.ParseAlgos
 import LexVerif.Model.WriteRadixInt
+-- big-integer slow path (slow.rs / bigint.rs): models, op handler, theorems
+import LexVerif.Model.Ops.Slow
+import LexVerif.Props.C01Slow
